@@ -241,3 +241,102 @@ Theorem C14_a64_uoff8_is_the_scaled_unsigned_offset :
   forall i, A64Wf.uoff8 i = true <-> exists q, 0 <= q <= 4095 /\ i = 8 * q.
 Proof. exact A.uoff8_spec. Qed.
 Print Assumptions C14_a64_uoff8_is_the_scaled_unsigned_offset.
+
+(* ======================= round 3: asm_wf and code_small as THEOREMS for x86-64 =======================
+   PROVED now (Sem/WfGuard.v, Proof/CodegenForallLin.v, Proof/X86WfAll.v, Proof/X86WfCor.v):
+   (f) EVERY instruction the x86-64 code generator and the routine wrapper emit passes the checker Sem/X86Wf.asm_wf
+       that the run-time check applies to the real output: labels defined once, every referenced label defined
+       (and not a '#'-mark), calls only to the two declared print routines, no label colliding with an extern, and
+       every instruction encodable (registers < 16; imm32 / disp32 sign-extended; `mov r64, imm64`; no
+       `imul [mem], reg`) - memory operations with field offsets, table jumps, push / pop, prologue / epilogue
+       included.  Hypotheses, all boolean on the PROGRAM: the label guards, the ordered linear discipline
+       (lin_check_prog: the target of an operation is fresh), plain names (no definition / type named '#...'),
+       and imm_guard = the ranges of the three immediates that come from the program: literals are 64-bit values,
+       a Substitute lists at most 2^31 pairs (`add qword [r], copies-1`), a type declares at most 2^28 xtors
+       (`add tmp, 5*k`).  The linear discipline cannot be dropped (C14_x86_compile_asm_wf_lin_needed: the latent
+       `imul [mem], reg` of mul_to_spill becomes reachable).
+   (g) per-method lemmas (`W l` = every instruction of l encodable, references non-mark, calls to print routines
+       only) and the generic theorem they are lifted by: Proof/CodegenForallLin.code_statement_QL refines
+       Proof/CodegenForall.v with what the generic code generator guarantees about the arguments of a method.
+   (h) code_small from the size theorem of C19 under size_guard (cg_bound_defs <= 2^40).
+   (i) calls_guard follows from the linear discipline. *)
+From SCC Require Import Model.LinCheck Sem.WfGuard Proof.SimFrag Proof.X86SimAddr Proof.X86WfAll Proof.X86WfCor Proof.Fun2CoreExamples.
+
+Theorem C14_x86_compile_asm_wf :
+  forall (p : prog) (lc : N) (cs : list xcode) (n : nat) (lc' : N),
+    labels_guard p = true -> calls_guard p = true -> lin_check_prog p = true ->
+    plain_names p = true -> plain_types p = true -> imm_guard p = true ->
+    x86_compile p lc = Ok (cs, n, lc') -> asm_wf cs = None.
+Proof. exact x86_compile_asm_wf. Qed.
+Print Assumptions C14_x86_compile_asm_wf.
+
+Theorem C14_x86_compile_code_small :
+  forall (p : prog) (lc : N) (cs : list xcode) (n : nat) (lc' : N),
+    lin_check_prog p = true -> size_guard p = true ->
+    x86_compile p lc = Ok (cs, n, lc') -> code_small cs = true.
+Proof. exact x86_compile_code_small. Qed.
+Print Assumptions C14_x86_compile_code_small.
+
+Theorem C14_lin_check_calls_guard : forall p : prog, lin_check_prog p = true -> calls_guard p = true.
+Proof. exact lin_check_calls_guard. Qed.
+Print Assumptions C14_lin_check_calls_guard.
+
+(* the back-end methods, for all arguments the generic code generator can hand over *)
+Theorem C14_x86_arith_wf :
+  forall (o : binop) (t s1 s2 : xtemp),
+    o <> Prod \/ (t <> s1 /\ t <> s2) -> temp_enc t -> temp_enc s1 -> temp_enc s2 -> W (x_arith o t s1 s2).
+Proof. exact W_arith. Qed.
+Print Assumptions C14_x86_arith_wf.
+Theorem C14_x86_table_jump_wf :
+  forall (t : xtemp) (k : N), temp_enc t -> (k < XTORS_MAX)%N -> W (x_add_and_jump t (jump_length k)).
+Proof. exact W_add_and_jump. Qed.
+Print Assumptions C14_x86_table_jump_wf.
+Theorem C14_x86_print_wf : forall (nl : bool) (s : xtemp) (c : ctx), temp_enc s -> W (x_print nl s c).
+Proof. exact W_print. Qed.
+Print Assumptions C14_x86_print_wf.
+Theorem C14_x86_erase_wf : forall (t : xtemp) (lc : N), temp_enc t -> W (fst (x_erase_block t lc)).
+Proof. exact W_erase. Qed.
+Print Assumptions C14_x86_erase_wf.
+Theorem C14_x86_share_wf :
+  forall (t : xtemp) (n lc : N), temp_enc t -> (n < SUBST_MAX)%N -> W (fst (x_share_block_n t n lc)).
+Proof. exact W_share. Qed.
+Print Assumptions C14_x86_share_wf.
+Theorem C14_x86_store_wf :
+  forall (to_store remaining : ctx) (lc : N) (c : list xcode) (lc' : N), x_store to_store remaining lc = Ok (c, lc') -> W c.
+Proof. exact W_x_store. Qed.
+Print Assumptions C14_x86_store_wf.
+Theorem C14_x86_load_wf :
+  forall (to_load existing : ctx) (lc : N) (c : list xcode) (lc' : N), x_load to_load existing lc = Ok (c, lc') -> W c.
+Proof. exact W_x_load. Qed.
+Print Assumptions C14_x86_load_wf.
+Theorem C14_x86_prologue_epilogue_wf : (forall n s, setup n = Ok s -> W s) /\ W cleanup.
+Proof. exact (conj W_setup W_cleanup). Qed.
+Print Assumptions C14_x86_prologue_epilogue_wf.
+(* what W gives for a body: the four facts asm_wf asks of the instructions *)
+Theorem C14_x86_body_predicate :
+  forall body, W body ->
+    (forall l, In l (flat_map X86Wf.referenced body) -> is_hash_label l = false) /\
+    (forall l, In l (calls body) -> l = "print_i64"%string \/ l = "println_i64"%string) /\
+    externs body = [] /\ (forall c, In c body -> instr_wf c = true).
+Proof. exact W_parts. Qed.
+Print Assumptions C14_x86_body_predicate.
+
+(* the hypotheses are satisfiable: the linearized stage outputs of the five example programs (mutual recursion;
+   shared continuations; lists; labels and goto; a corecursive stream) pass every guard *)
+Theorem C14_x86_compile_asm_wf_nonvacuous :
+  wf_guard_x86 (lin_of ex_calls) = true /\ wf_guard_x86 (lin_of ex_shared) = true /\ wf_guard_x86 (lin_of ex_data) = true /\
+  wf_guard_x86 (lin_of ex_labels) = true /\ wf_guard_x86 (lin_of ex_codata) = true /\
+  size_guard (lin_of ex_calls) = true /\ size_guard (lin_of ex_shared) = true /\ size_guard (lin_of ex_data) = true /\
+  size_guard (lin_of ex_labels) = true /\ size_guard (lin_of ex_codata) = true.
+Proof. exact wf_guard_examples. Qed.
+Print Assumptions C14_x86_compile_asm_wf_nonvacuous.
+
+(* the linear discipline cannot be dropped: a multiplication whose target is an operand in a spill slot *)
+Theorem C14_x86_compile_asm_wf_lin_needed :
+  labels_guard mul_alias_prog = true /\ calls_guard mul_alias_prog = true /\ lin_check_prog mul_alias_prog = false /\
+  plain_names mul_alias_prog = true /\ plain_types mul_alias_prog = true /\ imm_guard mul_alias_prog = true /\
+  exists cs n lc', x86_compile mul_alias_prog 0 = Ok (cs, n, lc') /\
+    asm_wf cs = Some "operand not encodable or no such instruction form"%string /\
+    In (IMULMR STACK (stack_offset 2) TEMP) cs.
+Proof. exact asm_wf_lin_check_needed. Qed.
+Print Assumptions C14_x86_compile_asm_wf_lin_needed.
